@@ -292,6 +292,44 @@ EXPLANATION = ("Conformance of the finite parts decided against RFC 4880 tables 
 ASSUMPTIONS = ["RFC 4880 constants as typed in sa/rules/c19.py", "piecewise evaluation interprets unsigned arithmetic with the declared widths"]
 
 
+def unwrap_iter(x):
+    while isinstance(x, dict) and (x.get('k') == 'cast' or (x.get('k') == 'ctor' and len(x.get('a', [])) == 1)):
+        x = x['e'] if x.get('k') == 'cast' else x['a'][0]
+    return x
+
+
+def is_begin_of(x, vid):
+    return isinstance(x, dict) and x.get('k') == 'mcall' and x['f'].split('::')[-1] in ('begin', 'cbegin') and unwrap_iter(x.get('o')).get('id') == vid
+
+
+def is_end_of(x, vid):
+    return isinstance(x, dict) and x.get('k') == 'mcall' and x['f'].split('::')[-1] in ('end', 'cend') and unwrap_iter(x.get('o')).get('id') == vid
+
+
+def ptr_offset(x, vid):
+    """constant K of the pointer expression  p + K  (or plain p: 0); vid=None accepts any base variable"""
+    x = unwrap_iter(x)
+    if isinstance(x, dict) and x.get('k') == 'var' and (vid is None or x.get('id') == vid):
+        return 0
+    if isinstance(x, dict) and x.get('k') in ('bin', 'opcall') and x.get('op') == '+' and len(x.get('a', [])) == 2:
+        a0, a1 = unwrap_iter(x['a'][0]), unwrap_iter(x['a'][1])
+        if isinstance(a0, dict) and a0.get('k') == 'var' and (vid is None or a0.get('id') == vid) and isinstance(a1, dict) and a1.get('k') == 'int':
+            return a1['v']
+    return None
+
+
+def iter_offset(x):
+    """constant K of  v.begin() + K  (or v.begin(): 0)"""
+    x = unwrap_iter(x)
+    if isinstance(x, dict) and x.get('k') == 'mcall' and x['f'].split('::')[-1] in ('begin', 'cbegin'):
+        return 0
+    if isinstance(x, dict) and x.get('k') in ('bin', 'opcall') and x.get('op') == '+' and len(x.get('a', [])) == 2:
+        a0, a1 = unwrap_iter(x['a'][0]), unwrap_iter(x['a'][1])
+        if isinstance(a0, dict) and a0.get('k') == 'mcall' and a0['f'].split('::')[-1] in ('begin', 'cbegin') and isinstance(a1, dict) and a1.get('k') == 'int':
+            return a1['v']
+    return None
+
+
 def r19f(ctx):
     """fingerprint framing (RFC 4880 12.2, v5 per the crypto-refresh draft the library follows):
     the header octets written in front of the key material, the offset the material is copied to,
@@ -344,6 +382,15 @@ def r19f(ctx):
                         except evalx.NotEvaluable:
                             body_off = None
         if body_off is None:
+            # std::copy(in.begin(), in.end(), buffer + OFF)  /  memcpy(buffer + OFF, &in[0], in.size())
+            for st in walk(f['body']):
+                if st.get('k') == 'call' and st.get('f', '').split('::')[-1] == 'copy' and len(st.get('a', [])) == 3:
+                    b0, b1, dst = [unwrap_iter(x) for x in st['a']]
+                    if is_begin_of(b0, inp['id']) and is_end_of(b1, inp['id']):
+                        off = ptr_offset(dst, bid)
+                        if off is not None:
+                            body_off = off
+        if body_off is None:
             ctx.note('R19f', key, 'copy of the key material into the hash buffer not recognised; framing not evaluated', f)
             continue
 
@@ -372,6 +419,14 @@ def r19f(ctx):
             if st.get('k') == 'for' and isinstance(st.get('c'), dict) and st['c'].get('op') == '<' and strip(st['c']['a'][1]).get('k') == 'int':
                 if any(e.get('k') == 'mcall' and e['f'].endswith('push_back') and strip(e['o']).get('id') == outp['id'] for e in walk(st['b'])):
                     nout = strip(st['c']['a'][1])['v']
+        if nout is None:
+            # out.insert(out.end(), hash, hash + N)
+            for st in walk(f['body']):
+                if st.get('k') == 'mcall' and st['f'].split('::')[-1] == 'insert' and strip(st.get('o')).get('id') == outp['id'] and len(st.get('a', [])) == 3:
+                    lo = ptr_offset(unwrap_iter(st['a'][1]), None)
+                    hi = ptr_offset(unwrap_iter(st['a'][2]), None)
+                    if lo is not None and hi is not None:
+                        nout = hi - lo
         if nout is not None and nout != dlen:
             problems.append('%d digest octets are returned, the fingerprint has %d' % (nout, dlen))
         if problems:
@@ -393,6 +448,14 @@ def r19f(ctx):
                     init = init['e']
                 if isinstance(init, dict) and init.get('k') == 'int' and isinstance(b, dict) and b.get('k') == 'int':
                     rng = (init['v'], b['v'])
+        if rng is None:
+            # out.insert(out.end(), fpr.begin() + lo, fpr.begin() + hi)
+            for st in walk(f['body']):
+                if st.get('k') == 'mcall' and st['f'].split('::')[-1] == 'insert' and len(st.get('a', [])) == 3:
+                    lo = iter_offset(unwrap_iter(st['a'][1]))
+                    hi = iter_offset(unwrap_iter(st['a'][2]))
+                    if lo is not None and hi is not None:
+                        rng = (lo, hi)
         if rng is None:
             ctx.note('R19f', key, 'key-id slice not recognised; not evaluated', f)
         elif rng == (lo, hi):
